@@ -2,4 +2,12 @@ package main
 
 import "golang.org/x/crypto/curve25519"
 
-func x25519(priv, pub []byte) ([]byte, error) { return curve25519.X25519(priv, pub) }
+// x25519 is the raw scalar multiplication (no small-order rejection): the monitor must be able to compute
+// what the accessory computes for any 32-byte "public key" a peer may send.
+func x25519(priv, pub []byte) ([]byte, error) {
+	var k, p, out [32]byte
+	copy(k[:], priv)
+	copy(p[:], pub)
+	curve25519.ScalarMult(&out, &k, &p)
+	return out[:], nil
+}
